@@ -70,3 +70,39 @@ where
         f.debug_tuple("Request").field(&self.operation).finish()
     }
 }
+
+/// Verification hooks (feature `crux_verif`, off by default): public names for the three
+/// crate-private constructors, so harnesses can build requests of each arity with their own
+/// continuation.
+#[cfg(feature = "crux_verif")]
+impl<Op> Request<Op>
+where
+    Op: Operation,
+{
+    pub fn verif_resolves_never(operation: Op) -> Self {
+        Self::resolves_never(operation)
+    }
+
+    pub fn verif_resolves_once<F>(operation: Op, resolve: F) -> Self
+    where
+        F: FnOnce(Op::Output) + Send + 'static,
+    {
+        Self::resolves_once(operation, resolve)
+    }
+
+    pub fn verif_resolves_many_times<F>(operation: Op, resolve: F) -> Self
+    where
+        F: Fn(Op::Output) -> Result<(), ()> + Send + 'static,
+    {
+        Self::resolves_many_times(operation, resolve)
+    }
+
+    /// Arity the request currently has: 0 = never, 1 = once, 2 = many.
+    pub fn verif_kind(&self) -> u8 {
+        match self.resolve {
+            Resolve::Never => 0,
+            Resolve::Once(_) => 1,
+            Resolve::Many(_) => 2,
+        }
+    }
+}
